@@ -1,93 +1,205 @@
-import UgoVerif.VM.Reset
+import UgoVerif.Proofs.VMInv
+import UgoVerif.VM.Copy
 /-
-  Running an `M` action on a state, rewriting rules for the monad structure, and the
-  invariant calculus `Keeps P m` ("m preserves the state predicate P, whether it ends
-  normally, with a Go panic or outside the model").
+  C06 helper layer 2: the helpers of the VM model that never touch the control part
+  (frames, sp, curFrame, frameIndex, err, …) — `Keeps` lemmas proved with `mvcgen`,
+  and the derived `@[spec]` triples used when verifying the opcodes.
 -/
-namespace UgoVerif.VM
-open UgoVerif UgoVerif.Go
+set_option linter.unusedSimpArgs false
+set_option linter.unusedVariables false
+set_option mvcgen.warning false
+namespace UgoVerif.Proofs.VM
+open UgoVerif UgoVerif.Go UgoVerif.VM Std.Do
 
-/-- run an action: result (or abnormal end) and the state it leaves -/
-def exec {α} (m : M α) (s : State) : Except Exc α × State := m.run.run s
+/-- closes the verification conditions of `Keeps` proofs -/
+macro "vm_same" : tactic => `(tactic| (simp_all +zetaDelta [cp]))
 
-@[simp] theorem exec_pure {α} (a : α) (s : State) : exec (pure a : M α) s = (.ok a, s) := rfl
+/-- start a `Keeps` proof -/
+macro "keeps_start" : tactic => `(tactic| (apply keeps_of_triple; intro c0))
 
-theorem exec_bind {α β} (m : M α) (f : α → M β) (s : State) :
-    exec (m >>= f) s = match exec m s with
-      | (.ok a, s') => exec (f a) s'
-      | (.error e, s') => (.error e, s') := by
-  simp only [exec, ExceptT.run_bind, StateT.run_bind]
-  show (match (m.run.run s) with | (r, s') => _) = _
-  rcases h : m.run.run s with ⟨r, s'⟩
-  cases r <;> simp <;> rfl
+theorem keeps_stackGet (i : Int) : Keeps (stackGet i) := by
+  keeps_start; mvcgen [stackGet, getS, UgoVerif.VM.panic]; all_goals vm_same
+theorem keeps_stackSet (i : Int) (v : V) : Keeps (stackSet i v) := by
+  keeps_start; mvcgen [stackSet, modS, UgoVerif.VM.panic]; all_goals vm_same
+theorem keeps_heapGet (a : Addr) : Keeps (heapGet a) := by
+  keeps_start; mvcgen [heapGet, getS, unsupported]; all_goals vm_same
+theorem keeps_heapSet (a : Addr) (c : Cell) : Keeps (heapSet a c) := by
+  keeps_start; mvcgen [heapSet, modS]; all_goals vm_same
+theorem keeps_alloc (c : Cell) : Keeps (alloc c) := by
+  keeps_start; mvcgen [alloc, getS]; all_goals vm_same
 
-theorem exec_map {α β} (f : α → β) (m : M α) (s : State) :
-    exec (f <$> m) s = match exec m s with
-      | (.ok a, s') => (.ok (f a), s')
-      | (.error e, s') => (.error e, s') := by
-  rw [map_eq_pure_bind, exec_bind]
-  rcases exec m s with ⟨r, s'⟩
-  cases r <;> rfl
+@[spec] theorem heapGet_spec (a : Addr) (c0 : CP) :
+    ⦃fun s => ⌜c0 = cp s⌝⦄ heapGet a ⦃post⟨fun _ s => ⌜cp s = c0⌝, fun _ s => ⌜cp s = c0⌝⟩⦄ := (keeps_heapGet a).spec c0
+@[spec] theorem heapSet_spec (a : Addr) (c : Cell) (c0 : CP) :
+    ⦃fun s => ⌜c0 = cp s⌝⦄ heapSet a c ⦃post⟨fun _ s => ⌜cp s = c0⌝, fun _ s => ⌜cp s = c0⌝⟩⦄ := (keeps_heapSet a c).spec c0
+/-- `alloc` keeps the control part and raises nothing -/
+@[spec] theorem alloc_spec (c : Cell) (c0 : CP) :
+    ⦃fun s => ⌜c0 = cp s⌝⦄ alloc c ⦃post⟨fun _ s => ⌜cp s = c0⌝, fun _ _ => ⌜False⌝⟩⦄ := by
+  mvcgen [alloc, getS]; all_goals vm_same
 
-@[simp] theorem exec_getS (s : State) : exec getS s = (.ok s, s) := rfl
-@[simp] theorem exec_get (s : State) : exec (get : M State) s = (.ok s, s) := rfl
-@[simp] theorem exec_modS (f : State → State) (s : State) : exec (modS f) s = (.ok (), f s) := rfl
-@[simp] theorem exec_set (s' s : State) : exec (set s' : M Unit) s = (.ok (), s') := rfl
-@[simp] theorem exec_throw {α} (e : Exc) (s : State) : exec (throw e : M α) s = (.error e, s) := rfl
-@[simp] theorem exec_panic {α} (m : String) (s : State) : exec (panic m : M α) s = (.error (.panic m), s) := rfl
-@[simp] theorem exec_unsupported {α} (m : String) (s : State) :
-    exec (unsupported m : M α) s = (.error (.unsupported m), s) := rfl
+theorem keeps_curCode : Keeps curCode := by
+  keeps_start; mvcgen [curCode, curFrame, getS, UgoVerif.VM.panic, unsupported]; all_goals vm_same
+@[spec] theorem curCode_spec (c0 : CP) :
+    ⦃fun s => ⌜c0 = cp s⌝⦄ curCode ⦃post⟨fun _ s => ⌜cp s = c0⌝, fun _ s => ⌜cp s = c0⌝⟩⦄ := keeps_curCode.spec c0
 
-/-- `m` preserves `P` on every path -/
-def Keeps {α} (P : State → Prop) (m : M α) : Prop := ∀ s, P s → P (exec m s).2
+theorem keeps_instAt (i : Int) : Keeps (instAt i) := by
+  keeps_start; mvcgen [instAt, UgoVerif.VM.panic]; all_goals vm_same
+@[spec] theorem instAt_spec (i : Int) (c0 : CP) :
+    ⦃fun s => ⌜c0 = cp s⌝⦄ instAt i ⦃post⟨fun _ s => ⌜cp s = c0⌝, fun _ s => ⌜cp s = c0⌝⟩⦄ := (keeps_instAt i).spec c0
 
-namespace Keeps
-variable {P : State → Prop}
+theorem keeps_opnd1 (k : Int) : Keeps (opnd1 k) := by
+  keeps_start; mvcgen [opnd1, getIp, getS]; all_goals vm_same
+theorem keeps_opnd2 (k : Int) : Keeps (opnd2 k) := by
+  keeps_start; mvcgen [opnd2, getIp, getS]; all_goals vm_same
+theorem keeps_opnd4 (k : Int) : Keeps (opnd4 k) := by
+  keeps_start; mvcgen [opnd4, getIp, getS]; all_goals vm_same
+@[spec] theorem opnd1_spec (k : Int) (c0 : CP) :
+    ⦃fun s => ⌜c0 = cp s⌝⦄ opnd1 k ⦃post⟨fun _ s => ⌜cp s = c0⌝, fun _ s => ⌜cp s = c0⌝⟩⦄ := (keeps_opnd1 k).spec c0
+@[spec] theorem opnd2_spec (k : Int) (c0 : CP) :
+    ⦃fun s => ⌜c0 = cp s⌝⦄ opnd2 k ⦃post⟨fun _ s => ⌜cp s = c0⌝, fun _ s => ⌜cp s = c0⌝⟩⦄ := (keeps_opnd2 k).spec c0
+@[spec] theorem opnd4_spec (k : Int) (c0 : CP) :
+    ⦃fun s => ⌜c0 = cp s⌝⦄ opnd4 k ⦃post⟨fun _ s => ⌜cp s = c0⌝, fun _ s => ⌜cp s = c0⌝⟩⦄ := (keeps_opnd4 k).spec c0
 
-theorem pure {α} (a : α) : Keeps P (Pure.pure a : M α) := fun _ h => h
-theorem throw {α} (e : Exc) : Keeps P (MonadExcept.throw e : M α) := fun _ h => h
-theorem panic {α} (m : String) : Keeps P (VM.panic m : M α) := fun _ h => h
-theorem unsupported {α} (m : String) : Keeps P (VM.unsupported m : M α) := fun _ h => h
-theorem getS : Keeps P VM.getS := fun _ h => h
-theorem get : Keeps P (MonadState.get : M State) := fun _ h => h
+theorem keeps_jumpTarget : Keeps jumpTarget := by
+  keeps_start; mvcgen [jumpTarget]; all_goals vm_same
+@[spec] theorem jumpTarget_spec (c0 : CP) :
+    ⦃fun s => ⌜c0 = cp s⌝⦄ jumpTarget ⦃post⟨fun _ s => ⌜cp s = c0⌝, fun _ s => ⌜cp s = c0⌝⟩⦄ := keeps_jumpTarget.spec c0
 
-theorem bind {α β} {m : M α} {f : α → M β} (hm : Keeps P m) (hf : ∀ a, Keeps P (f a)) :
-    Keeps P (m >>= f) := by
-  intro s hs
-  rw [exec_bind]
-  have := hm s hs
-  rcases h : exec m s with ⟨r, s'⟩
-  rw [h] at this
-  cases r with
-  | ok a => exact hf a s' this
-  | error e => exact this
+theorem keeps_constAt (i : Nat) : Keeps (constAt i) := by
+  keeps_start; mvcgen [constAt, getS, UgoVerif.VM.panic]; all_goals vm_same
+@[spec] theorem constAt_spec (i : Nat) (c0 : CP) :
+    ⦃fun s => ⌜c0 = cp s⌝⦄ constAt i ⦃post⟨fun _ s => ⌜cp s = c0⌝, fun _ s => ⌜cp s = c0⌝⟩⦄ := (keeps_constAt i).spec c0
 
-theorem modS {f : State → State} (hf : ∀ s, P s → P (f s)) : Keeps P (VM.modS f) := fun s h => hf s h
-theorem set' {s' : State} (h : P s') : Keeps P (MonadStateOf.set s' : M Unit) := fun _ _ => h
+theorem keeps_arrElems (a : Addr) (o l : Nat) : Keeps (arrElems a o l) := by
+  keeps_start; mvcgen [arrElems, unsupported]; all_goals vm_same
+@[spec] theorem arrElems_spec (a : Addr) (o l : Nat) (c0 : CP) :
+    ⦃fun s => ⌜c0 = cp s⌝⦄ arrElems a o l ⦃post⟨fun _ s => ⌜cp s = c0⌝, fun _ s => ⌜cp s = c0⌝⟩⦄ := (keeps_arrElems a o l).spec c0
 
-theorem ite {α} {c : Prop} [Decidable c] {a b : M α} (ha : Keeps P a) (hb : Keeps P b) :
-    Keeps P (if c then a else b) := by split <;> assumption
+theorem keeps_mapEntries (a : Addr) : Keeps (mapEntries a) := by
+  keeps_start; mvcgen [mapEntries, unsupported]; all_goals vm_same
+@[spec] theorem mapEntries_spec (a : Addr) (c0 : CP) :
+    ⦃fun s => ⌜c0 = cp s⌝⦄ mapEntries a ⦃post⟨fun _ s => ⌜cp s = c0⌝, fun _ s => ⌜cp s = c0⌝⟩⦄ := (keeps_mapEntries a).spec c0
 
-theorem forIn_list {α β} (l : List α) (init : β) (f : α → β → M (ForInStep β))
-    (hf : ∀ a b, Keeps P (f a b)) : Keeps P (forIn l init f) := by
-  induction l generalizing init with
-  | nil => exact Keeps.pure _
-  | cons a as ih =>
-    rw [List.forIn_cons]
-    refine Keeps.bind (hf a init) ?_
-    intro x
-    cases x with
-    | done b => exact Keeps.pure _
-    | yield b => exact ih b
+theorem keeps_vString (v : V) : Keeps (vString v) := by
+  keeps_start; mvcgen [vString, UgoVerif.VM.panic, unsupported]; all_goals vm_same
+@[spec] theorem vString_spec (v : V) (c0 : CP) :
+    ⦃fun s => ⌜c0 = cp s⌝⦄ vString v ⦃post⟨fun _ s => ⌜cp s = c0⌝, fun _ s => ⌜cp s = c0⌝⟩⦄ := (keeps_vString v).spec c0
 
-theorem forIn_range {β} (r : Std.Legacy.Range) (init : β) (f : Nat → β → M (ForInStep β))
-    (hf : ∀ a b, Keeps P (f a b)) : Keeps P (forIn r init f) := by
-  rw [Std.Legacy.Range.forIn_eq_forIn_range']
-  exact forIn_list _ _ _ hf
+theorem keeps_isFalsy (v : V) : Keeps (isFalsy v) := by
+  keeps_start; mvcgen [isFalsy, UgoVerif.VM.panic, unsupported]; all_goals vm_same
+@[spec] theorem isFalsy_spec (v : V) (c0 : CP) :
+    ⦃fun s => ⌜c0 = cp s⌝⦄ isFalsy v ⦃post⟨fun _ s => ⌜cp s = c0⌝, fun _ s => ⌜cp s = c0⌝⟩⦄ := (keeps_isFalsy v).spec c0
 
-theorem elim {α} {m : M α} (h : Keeps P m) (s : State) (hs : P s) : P (exec m s).2 := h s hs
-theorem intro' {α} {m : M α} (h : ∀ s, P s → P (exec m s).2) : Keeps P m := h
+theorem keeps_vEqual (F : FloatOps) (l r : V) : Keeps (vEqual F l r) := by
+  keeps_start; mvcgen [vEqual, getS, UgoVerif.VM.panic, unsupported]; all_goals vm_same
+@[spec] theorem vEqual_spec (F : FloatOps) (l r : V) (c0 : CP) :
+    ⦃fun s => ⌜c0 = cp s⌝⦄ vEqual F l r ⦃post⟨fun _ s => ⌜cp s = c0⌝, fun _ s => ⌜cp s = c0⌝⟩⦄ := (keeps_vEqual F l r).spec c0
 
-end Keeps
-attribute [irreducible] Keeps
-end UgoVerif.VM
+theorem keeps_vBinaryOp (F : FloatOps) (tok : Tok) (l r : V) : Keeps (vBinaryOp F tok l r) := by
+  keeps_start; mvcgen [vBinaryOp, UgoVerif.VM.panic, unsupported]; all_goals vm_same
+@[spec] theorem vBinaryOp_spec (F : FloatOps) (tok : Tok) (l r : V) (c0 : CP) :
+    ⦃fun s => ⌜c0 = cp s⌝⦄ vBinaryOp F tok l r ⦃post⟨fun _ s => ⌜cp s = c0⌝, fun _ s => ⌜cp s = c0⌝⟩⦄ := (keeps_vBinaryOp F tok l r).spec c0
+
+theorem keeps_vIndexGet (t i : V) : Keeps (vIndexGet t i) := by
+  keeps_start; mvcgen [vIndexGet, UgoVerif.VM.panic, unsupported]; all_goals vm_same
+@[spec] theorem vIndexGet_spec (t i : V) (c0 : CP) :
+    ⦃fun s => ⌜c0 = cp s⌝⦄ vIndexGet t i ⦃post⟨fun _ s => ⌜cp s = c0⌝, fun _ s => ⌜cp s = c0⌝⟩⦄ := (keeps_vIndexGet t i).spec c0
+
+theorem keeps_vIndexSet (t i v : V) : Keeps (vIndexSet t i v) := by
+  keeps_start; mvcgen [vIndexSet, UgoVerif.VM.panic, unsupported]; all_goals vm_same
+@[spec] theorem vIndexSet_spec (t i v : V) (c0 : CP) :
+    ⦃fun s => ⌜c0 = cp s⌝⦄ vIndexSet t i v ⦃post⟨fun _ s => ⌜cp s = c0⌝, fun _ s => ⌜cp s = c0⌝⟩⦄ := (keeps_vIndexSet t i v).spec c0
+
+theorem keeps_mkErr (n m : String) (c : Option Addr) : Keeps (mkErr n m c) := by
+  keeps_start; mvcgen [mkErr]; all_goals vm_same
+@[spec] theorem mkErr_spec (n m : String) (c : Option Addr) (c0 : CP) :
+    ⦃fun s => ⌜c0 = cp s⌝⦄ mkErr n m c ⦃post⟨fun _ s => ⌜cp s = c0⌝, fun _ s => ⌜cp s = c0⌝⟩⦄ := (keeps_mkErr n m c).spec c0
+
+theorem keeps_rtErrOfOpErr (e : OpErr) : Keeps (rtErrOfOpErr e) := by
+  keeps_start; mvcgen [rtErrOfOpErr]; all_goals vm_same
+@[spec] theorem rtErrOfOpErr_spec (e : OpErr) (c0 : CP) :
+    ⦃fun s => ⌜c0 = cp s⌝⦄ rtErrOfOpErr e ⦃post⟨fun _ s => ⌜cp s = c0⌝, fun _ s => ⌜cp s = c0⌝⟩⦄ := (keeps_rtErrOfOpErr e).spec c0
+
+theorem keeps_fnCell (a : Addr) : Keeps (fnCell a) := by
+  keeps_start; mvcgen [fnCell, getS, unsupported]; all_goals vm_same
+@[spec] theorem fnCell_spec (a : Addr) (c0 : CP) :
+    ⦃fun s => ⌜c0 = cp s⌝⦄ fnCell a ⦃post⟨fun _ s => ⌜cp s = c0⌝, fun _ s => ⌜cp s = c0⌝⟩⦄ := (keeps_fnCell a).spec c0
+
+theorem keeps_newArray (xs : List V) : Keeps (newArray xs) := by
+  keeps_start; mvcgen [newArray]; all_goals vm_same
+@[spec] theorem newArray_spec (xs : List V) (c0 : CP) :
+    ⦃fun s => ⌜c0 = cp s⌝⦄ newArray xs ⦃post⟨fun _ s => ⌜cp s = c0⌝, fun _ s => ⌜cp s = c0⌝⟩⦄ := (keeps_newArray xs).spec c0
+
+theorem keeps_callBuiltin (i : Nat) (args : List V) : Keeps (callBuiltin i args) := by
+  keeps_start; mvcgen [callBuiltin, UgoVerif.VM.panic, unsupported]; all_goals vm_same
+@[spec] theorem callBuiltin_spec (i : Nat) (args : List V) (c0 : CP) :
+    ⦃fun s => ⌜c0 = cp s⌝⦄ callBuiltin i args ⦃post⟨fun _ s => ⌜cp s = c0⌝, fun _ s => ⌜cp s = c0⌝⟩⦄ := (keeps_callBuiltin i args).spec c0
+
+theorem keeps_noteTrace (op : Nat) : Keeps (noteTrace op) := by
+  keeps_start; mvcgen [noteTrace, getS]; all_goals vm_same
+@[spec] theorem noteTrace_spec (op : Nat) (c0 : CP) :
+    ⦃fun s => ⌜c0 = cp s⌝⦄ noteTrace op ⦃post⟨fun _ s => ⌜cp s = c0⌝, fun _ s => ⌜cp s = c0⌝⟩⦄ := (keeps_noteTrace op).spec c0
+
+/-- the stack-clearing loop `for i := hi; i >= lo; i-- { vm.stack[i] = nil }` -/
+theorem keeps_clearDown (hi lo : Int) : Keeps (clearDown hi lo) := by
+  apply keeps_of_triple; intro c0
+  mvcgen [clearDown, stackSet, modS, UgoVerif.VM.panic]
+  invariants
+  · post⟨fun _ s => ⌜cp s = c0⌝, fun _ s => ⌜cp s = c0⌝⟩
+  all_goals vm_same
+
+theorem keeps_copyToStack (at_ : Int) (xs : List V) : Keeps (copyToStack at_ xs) := by
+  apply keeps_of_triple; intro c0
+  mvcgen [copyToStack, stackSet, modS, UgoVerif.VM.panic]
+  invariants
+  · post⟨fun _ s => ⌜cp s = c0⌝, fun _ s => ⌜cp s = c0⌝⟩
+  all_goals vm_same
+@[spec] theorem copyToStack_spec (at_ : Int) (xs : List V) (c0 : CP) :
+    ⦃fun s => ⌜c0 = cp s⌝⦄ copyToStack at_ xs ⦃post⟨fun _ s => ⌜cp s = c0⌝, fun _ s => ⌜cp s = c0⌝⟩⦄ := (keeps_copyToStack at_ xs).spec c0
+
+theorem keeps_fillUndefined (lo : Int) (n : Nat) : Keeps (fillUndefined lo n) := by
+  apply keeps_of_triple; intro c0
+  mvcgen [fillUndefined, stackSet, modS, UgoVerif.VM.panic]
+  invariants
+  · post⟨fun _ s => ⌜cp s = c0⌝, fun _ s => ⌜cp s = c0⌝⟩
+  all_goals vm_same
+@[spec] theorem fillUndefined_spec (lo : Int) (n : Nat) (c0 : CP) :
+    ⦃fun s => ⌜c0 = cp s⌝⦄ fillUndefined lo n ⦃post⟨fun _ s => ⌜cp s = c0⌝, fun _ s => ⌜cp s = c0⌝⟩⦄ := (keeps_fillUndefined lo n).spec c0
+
+theorem keeps_copySlots (dst : Int) (src : List V) : Keeps (copySlots dst src) := by
+  apply keeps_of_triple; intro c0
+  mvcgen [copySlots, stackSet, modS, UgoVerif.VM.panic]
+  invariants
+  · post⟨fun _ s => ⌜cp s = c0⌝, fun _ s => ⌜cp s = c0⌝⟩
+  all_goals vm_same
+@[spec] theorem copySlots_spec (dst : Int) (src : List V) (c0 : CP) :
+    ⦃fun s => ⌜c0 = cp s⌝⦄ copySlots dst src ⦃post⟨fun _ s => ⌜cp s = c0⌝, fun _ s => ⌜cp s = c0⌝⟩⦄ := (keeps_copySlots dst src).spec c0
+
+theorem keeps_stackSlice (lo hi : Int) : Keeps (stackSlice lo hi) := by
+  keeps_start; mvcgen [stackSlice, getS, UgoVerif.VM.panic]; all_goals vm_same
+theorem stackSlice_spec (lo hi : Int) (c0 : CP) :
+    ⦃fun s => ⌜c0 = cp s⌝⦄ stackSlice lo hi ⦃post⟨fun _ s => ⌜cp s = c0⌝, fun _ s => ⌜cp s = c0⌝⟩⦄ := (keeps_stackSlice lo hi).spec c0
+
+theorem keeps_bindArgs (code : Code) (bp numArgs flags : Int) : Keeps (bindArgs code bp numArgs flags) := by
+  have ss := stackSlice_spec
+  keeps_start
+  mvcgen [bindArgs, stackGet, stackSet, getS, modS, UgoVerif.VM.panic, ss]
+  all_goals vm_same
+@[spec] theorem bindArgs_spec (code : Code) (bp numArgs flags : Int) (c0 : CP) :
+    ⦃fun s => ⌜c0 = cp s⌝⦄ bindArgs code bp numArgs flags ⦃post⟨fun _ s => ⌜cp s = c0⌝, fun _ s => ⌜cp s = c0⌝⟩⦄ :=
+  (keeps_bindArgs code bp numArgs flags).spec c0
+
+/-- `Copier.Copy()` of OpStoreModule only allocates -/
+theorem keeps_copyV (v : V) : Keeps (copyV v) := by
+  keeps_start; mvcgen [copyV, getS, unsupported]; all_goals vm_same
+@[spec] theorem copyV_spec (v : V) (c0 : CP) :
+    ⦃fun s => ⌜c0 = cp s⌝⦄ copyV v ⦃post⟨fun _ s => ⌜cp s = c0⌝, fun _ s => ⌜cp s = c0⌝⟩⦄ := (keeps_copyV v).spec c0
+
+/-- xOpUnary touches nothing -/
+theorem keeps_vUnary (F : FloatOps) (tok : Tok) (r : V) : Keeps (vUnary F tok r) := by
+  keeps_start; mvcgen [vUnary, UgoVerif.VM.panic, unsupported]; all_goals vm_same
+@[spec] theorem vUnary_spec (F : FloatOps) (tok : Tok) (r : V) (c0 : CP) :
+    ⦃fun s => ⌜c0 = cp s⌝⦄ vUnary F tok r ⦃post⟨fun _ s => ⌜cp s = c0⌝, fun _ s => ⌜cp s = c0⌝⟩⦄ :=
+  (keeps_vUnary F tok r).spec c0
+
+end UgoVerif.Proofs.VM
